@@ -842,6 +842,19 @@ func (fr *Frame) evalCall(sc *Scope, x *ECall) Val {
 			cfail("loopFresh() outside a loop clause")
 		}
 		return scalar(boolT, And(Not(Eq(v.C[0], Nil)), fr.isFreshSince(fr.refOf(v), sc.loopAlloc)))
+	case "attr":
+		// attr(name, x): ghost boolean attribute of x's object
+		argn(2)
+		id, ok := x.Args[0].(*EIdent)
+		if !ok {
+			cfail("attr(name, x): name must be an identifier")
+		}
+		if _, ok := fr.en.CS.Attrs[id.Name]; !ok {
+			cfail("attr %s is not declared (//@ attr %s)", id.Name, id.Name)
+		}
+		v := fr.evalExpr(sc, x.Args[1])
+		h := fr.heap(sc.st, "R:"+id.Name, ArrSort(SInt, SBool))
+		return scalar(boolT, Select(h, fr.refOf(v)))
 	case "captures":
 		// captures(x): the goroutine being spawned (callsite go:) receives a reference to x's object,
 		// as an argument or in a captured variable
